@@ -22,6 +22,11 @@ MAX_PATHS = 20000
 
 def setup(E):
     sftp_server.declare_c30(E)
+    # client half ("a client whose server answers every request never blocks forever"): a request is registered before it
+    # is sent, and every answer taken off the wire is returned or handed to the owner of that request (shared with C29)
+    from contracts import sftp_file
+    TARGETS[:] = [t for t in TARGETS if not (isinstance(t, tuple) and t[1] in ("registration", "dispatch"))]
+    TARGETS.extend(sftp_file.client_variants(E))
     sftp_server.declare_c30_helpers(E)
     # _check_file against its own body (C30-a: a second response after a failed read), in this property's own
     # environment: generic handle contracts, response counter carried through both loops
@@ -46,10 +51,15 @@ LEVEL_TEXT = ("Proof for the server side: _process, for every request type 0..25
               "is defined as the first uint32 of the packet given to _send_packet); _check_file is verified against its own "
               "body with both loops under an invariant on the response counter: one STATUS or EXTENDED_REPLY with the "
               "request's id on return, nothing sent when the user's handle raises. What the reply contains and that the "
-              "loops terminate are proved under C32.")
+              "loops terminate are proved under C32. Client side, two safety clauses behind 'never blocks forever' (contracts shared "
+              "with C29): SFTPClient._async_request registers a request, under the number it returns and the object given, "
+              "before it goes out on the wire; SFTPClient._read_response returns only the awaited answer and hands every other "
+              "answer it takes off the wire to the owner of that very request.")
 LEVEL_NOTE = ("Assumed (generic contracts): the user's SFTPServerInterface / SFTPHandle callbacks return values or raise; "
               "_send_handle_response, _open_folder and _read_folder send one packet of their two possible types (not yet "
               "verified against their bodies); start_subsystem's catch-all is read, not verified. The client-side half of the "
-              "statement (a client never blocks forever when every request is answered) involves threads and waits and is "
-              "not decided by contracts: not claimed.")
+              "statement (a client never blocks forever when every request is answered) is liveness over threads and waits: "
+              "only the two safety clauses above (registration before sending, delivery to the owner) are decided; together "
+              "with C28's retire clauses and C29's status collection they are what the waits rely on. SFTPClient.listdir_iter "
+              "reads raw packets past _expecting (read, not under contract).")
 TECHNIQUE = "deductive: ghost response counter/type over the dispatch function, symbolic request type, z3"
